@@ -101,17 +101,22 @@ def check_table(st: Stats, n: int, v, tag: str) -> None:
         st.violation(f"[denormalize n={n} {tag}] de-normalising does not restore the game: {back} vs {list(v)}", **doc)
 
 
-def check_graph(st: Stats, n: int, name: str, seed: int, scale: float = 1.0) -> None:
+def check_graph(st: Stats, n: int, name: str, seed: int, scale: float = 1.0, dtype: str | None = None) -> None:
     """A graph game and its tabulated form normalise to the same values; graph de-normalisation restores the values."""
     from incomplete_cooperative.graph_game import GraphCooperativeGame
     from incomplete_cooperative.normalize import denormalize_game, normalize_game
-    doc = {"n": n, "generator": name, "gen_seed": seed, "tag": f"graph:{name}:{seed}:x{scale}", "scale": scale}
+    doc = {"n": n, "generator": name, "gen_seed": seed, "tag": f"graph:{name}:{seed}:x{scale}:{dtype}", "scale": scale, "dtype": dtype}
     try:
         g = gens.draw_game(name, n, seed)
         if not isinstance(g, GraphCooperativeGame):
             return
         if scale != 1.0:
             g = GraphCooperativeGame(np.asarray(g._graph_matrix) * scale)
+        if dtype is not None:      # the same weights held in another float representation (byte order / width); float32 rounds them first
+            m = np.asarray(g._graph_matrix, dtype=np.float64)
+            if dtype == "float32":
+                m = m.astype(np.float32).astype(np.float64)
+            g = GraphCooperativeGame(m.astype(np.dtype(dtype)))
         v = tuple(float(x) for x in g.get_values())
         doc["values"] = list(v)
         doc["matrix"] = np.asarray(g._graph_matrix).tolist() if hasattr(g, "_graph_matrix") else None
@@ -168,6 +173,8 @@ def unit(u) -> Stats:
             check_table(st, n, v, f"gen:{name}:{s}")
             check_graph(st, n, name, s)
             check_graph(st, n, name, s, 2.0 ** -40)
+            for dt in (">f8", "longdouble"):      # float32 input is normalised in float32 precision: no tight oracle, not used
+                check_graph(st, n, name, s, 1.0, dt)
             if st.nviol >= 3:
                 break
         if name == "xos2" and n == 3:
@@ -233,7 +240,7 @@ def run(run: Run) -> None:
 def replay(doc: dict):
     st = Stats()
     if doc.get("generator"):
-        check_graph(st, doc["n"], doc["generator"], doc["gen_seed"], doc.get("scale", 1.0))
+        check_graph(st, doc["n"], doc["generator"], doc["gen_seed"], doc.get("scale", 1.0), doc.get("dtype"))
     else:
         check_table(st, doc["n"], tuple(doc["values"]), doc.get("tag", "replay"))
     msgs = [v["message"] for v in st.violations]
